@@ -46,6 +46,8 @@ TARGETS = {
     'pico8/map/map.py': [(r'Map\.(get_cell|set_cell|get_rect_tiles|set_rect_tiles|get_rect_pixels)$', ['C17'])],
     'pico8/gff/gff.py': [(r'Gff\.', ['C17'])],
     'pico8/util.py': [(r'BaseSection\.(from_lines|to_lines|from_bytes)$', ['C16'])],
+    'pico8/tool.py': [(r'^(luamin|do_luamin)$', ['C01']), (r'^(luafmt|do_luafmt)$', ['C10']), (r'^(writep8|do_writep8)$', ['C06']),
+                      (r'^process_game_files$', ['C09']), (r'^_get_argparser$', ['C10', 'C13', 'C01'])],
 }
 
 CMP = {ast.Lt: ast.LtE, ast.LtE: ast.Lt, ast.Gt: ast.GtE, ast.GtE: ast.Gt, ast.Eq: ast.NotEq, ast.NotEq: ast.Eq, ast.Is: ast.IsNot, ast.IsNot: ast.Is,
